@@ -217,6 +217,9 @@ fn policy_menu_inner(kind: Kind, tier: Tier) -> Vec<Cfg> {
                 v.push(keys(slru(3, 3, 1), 8));
                 v.push(keys(slru(2, 4, 1), 8));
                 v.push(keys(slru(4, 2, 1), 8));
+                v.push(keys(slru(3, 4, 1), 8));
+                v.push(keys(slru(4, 3, 1), 8));
+                v.push(slru(2, 3, 2));
             } else {
                 v.push(slru(1, 1, 2));
             }
@@ -518,11 +521,11 @@ pub fn plan(prop: &str, tier: Tier) -> Vec<RunSpec> {
             for k in [Kind::Raw, Kind::TwoQ, Kind::Arc] {
                 let menu: Vec<Cfg> = match (k, tier) {
                     (Kind::Raw, Tier::Quick) => vec![raw(1, 1, 1), raw(2, 1, 1), raw(3, 1, 1)],
-                    (Kind::Raw, Tier::Thorough) => vec![raw(1, 1, 1), raw(2, 1, 2), raw(3, 1, 1), raw(4, 1, 1)],
+                    (Kind::Raw, Tier::Thorough) => vec![raw(1, 1, 1), raw(2, 1, 2), raw(3, 1, 1), raw(4, 1, 1), raw(3, 2, 2), raw(5, 1, 1), raw(6, 1, 1)],
                     (Kind::TwoQ, Tier::Quick) => vec![twoq(2, 0.25, 0.5, 1), twoq(3, 0.34, 0.34, 1)],
-                    (Kind::TwoQ, Tier::Thorough) => vec![twoq(2, 0.25, 0.5, 1), twoq(3, 0.34, 0.34, 1), twoq(3, 1.0, 1.0, 1), twoq(4, 0.25, 0.5, 1)],
+                    (Kind::TwoQ, Tier::Thorough) => vec![twoq(2, 0.25, 0.5, 1), twoq(3, 0.34, 0.34, 1), twoq(3, 1.0, 1.0, 1), twoq(4, 0.25, 0.5, 1), twoq(4, 0.5, 1.0, 1), twoq(3, 0.34, 0.34, 2), twoq(5, 0.4, 0.4, 1)],
                     (Kind::Arc, Tier::Quick) => vec![arc(1, 1), arc(2, 1)],
-                    _ => vec![arc(1, 1), arc(2, 1), arc(3, 1)],
+                    _ => vec![arc(1, 1), arc(2, 1), arc(3, 1), arc(2, 2), keys(arc(4, 1), 6)],
                 };
                 for mut c in menu {
                     c.with_clone = false;
@@ -540,7 +543,7 @@ pub fn plan(prop: &str, tier: Tier) -> Vec<RunSpec> {
         }
         "C15" => {
             for cb in [2u8, 1u8] {
-                let caps: &[(usize, u8, u8)] = if tier == Tier::Thorough { &[(1, 1, 2), (2, 1, 2), (3, 1, 1), (4, 1, 1), (2, 2, 1)] } else { &[(1, 1, 2), (2, 1, 2), (3, 1, 1)] };
+                let caps: &[(usize, u8, u8)] = if tier == Tier::Thorough { &[(1, 1, 2), (2, 1, 2), (3, 1, 1), (4, 1, 1), (2, 2, 1), (3, 2, 2), (5, 1, 1), (4, 2, 1), (6, 1, 1)] } else { &[(1, 1, 2), (2, 1, 2), (3, 1, 1)] };
                 for (cap, extra, ver) in caps {
                     let mut c = raw(*cap, *extra, *ver);
                     c.callback = cb;
